@@ -286,6 +286,7 @@ type mInst struct {
 	state       connectivity.State
 	picker      string
 	cachedUntil time.Time // zero = active
+	updates     int       // configs delivered to the object
 }
 
 type qItem struct {
@@ -334,6 +335,9 @@ func (m *model) usable(c *mChild) bool {
 // deliverConfig: the child's policy object receives a config; an armed inline
 // responder reports from inside that call.
 func (m *model) deliverConfig(name string) {
+	if in := m.live[name]; in != nil {
+		in.updates++
+	}
 	a, ok := m.armed[name]
 	if !ok {
 		return
@@ -445,7 +449,7 @@ type cfgChild struct {
 	IgnoreRR bool   `json:"ignore_rr"`
 }
 
-func (m *model) config(prios []string, ch map[string]cfgChild) {
+func (m *model) config(prios []string, ch map[string]cfgChild, mid func()) {
 	names := make([]string, 0, len(ch))
 	for n := range ch {
 		names = append(names, n)
@@ -481,6 +485,9 @@ func (m *model) config(prios []string, ch map[string]cfgChild) {
 	}
 	// every child gets to report before a priority is (re)chosen
 	m.inhibit = true
+	if mid != nil {
+		mid() // (an init timer expiring here only clears the timer: no priority is chosen until the update is complete)
+	}
 	m.drain()
 	m.inhibit = false
 	m.sync("config")
@@ -571,6 +578,44 @@ func (m *model) isDeadline(t time.Time) bool {
 // ---------------------------------------------------------------------------
 // the case driver
 
+type obsInst struct {
+	in      *inst
+	active  bool
+	updates int // configs the object received (snapshot taken under the harness lock)
+	pol     string
+	id      int
+}
+
+type observation struct {
+	now         time.Time
+	parent      balancer.State
+	parentN     int
+	built       int
+	alive       map[string][]obsInst
+	activeNames []string
+	newlyActive []*inst
+	inlineFired []string
+}
+
+type verdict struct {
+	key, msg string
+	div      string
+	nonReady int
+}
+
+func (m *model) views() []string {
+	var out []string
+	for _, n := range m.prios {
+		c := m.children[n]
+		w := ""
+		if !c.timer.IsZero() {
+			w = fmt.Sprintf(" init-window-left=%v", c.timer.Sub(m.now))
+		}
+		out = append(out, fmt.Sprintf("%s[%s started=%v %v/%s%s]", n, c.pol, c.started, c.state, c.picker, w))
+	}
+	return out
+}
+
 type evRec struct {
 	T    string `json:"t"`
 	Kind string `json:"kind"`
@@ -616,7 +661,7 @@ func buildJSON(prios []string, ch map[string]cfgChild) string {
 	return sb.String()
 }
 
-func runCase(t *testing.T, r *vlib.Run, fam string, idx int, closeTimeout time.Duration) {
+func runCase(t *testing.T, r *vlib.Run, fam string, idx int, closeTimeout time.Duration, raceBias int) {
 	rng := r.Rand(fam, idx)
 	auth := fmt.Sprintf("c39-%s-%d-%d", fam, idx, r.Seed())
 	h := &harness{byBD: map[*childBal]*inst{}, armed: map[string]armedReport{}}
@@ -706,8 +751,8 @@ func runCase(t *testing.T, r *vlib.Run, fam string, idx int, closeTimeout time.D
 		return prios, ch
 	}
 
-	// quiesce + probe + judge; returns false when the case must stop
-	check := func(evKind string) bool {
+	// observe: exact quiescence, probe of the active children, snapshot.
+	observe := func() *observation {
 		synctest.Wait()
 		h.mu.Lock()
 		h.probeSeq++
@@ -715,46 +760,41 @@ func runCase(t *testing.T, r *vlib.Run, fam string, idx int, closeTimeout time.D
 		h.mu.Unlock()
 		pb.ResolverError(probeErr{seq})
 		synctest.Wait()
-		now := time.Now()
-
+		o := &observation{now: time.Now(), alive: map[string][]obsInst{}}
 		h.mu.Lock()
-		parent := h.parent
-		parentN := h.parentN
-		type obs struct {
-			in     *inst
-			active bool
-		}
-		alive := map[string][]obs{}
-		var activeNames []string
-		var newlyActive []*inst
+		o.parent, o.parentN = h.parent, h.parentN
+		o.built = len(h.insts)
 		curActive := map[int]bool{}
 		for _, in := range h.insts {
 			if in.closed {
 				continue
 			}
 			act := in.lastProbe == seq
-			alive[in.child] = append(alive[in.child], obs{in, act})
+			o.alive[in.child] = append(o.alive[in.child], obsInst{in: in, active: act, updates: in.updates, pol: in.pol, id: in.id})
 			if act {
-				activeNames = append(activeNames, in.child)
+				o.activeNames = append(o.activeNames, in.child)
 				curActive[in.id] = true
 				if !prevActive[in.id] {
-					newlyActive = append(newlyActive, in)
+					o.newlyActive = append(o.newlyActive, in)
 				}
 				in.inactiveSince = time.Time{}
 			} else if in.inactiveSince.IsZero() || in.updates != in.updatesSeen {
 				// (a config delivered since the last check means it was reactivated and
 				// deactivated again in between: the cache time runs from the later stop)
-				in.inactiveSince = now
+				in.inactiveSince = o.now
 			}
 			in.updatesSeen = in.updates
 		}
-		inlineFired := append([]string(nil), h.inlineFired...)
+		o.inlineFired = append([]string(nil), h.inlineFired...)
 		h.inlineFired = nil
 		h.mu.Unlock()
 		prevActive = curActive
-		sort.Strings(activeNames)
+		sort.Strings(o.activeNames)
+		sort.Strings(o.inlineFired)
+		return o
+	}
 
-		// model side
+	fillDetail := func(m *model, o *observation) {
 		var activeModel []string
 		for n, c := range m.children {
 			if c.started {
@@ -764,17 +804,19 @@ func runCase(t *testing.T, r *vlib.Run, fam string, idx int, closeTimeout time.D
 		sort.Strings(activeModel)
 		det.Priorities = m.prios
 		det.InUseModel = m.inUse
-		det.Active, det.ActiveModel = activeNames, activeModel
-		det.Parent = fmt.Sprintf("%v/%s (update #%d)", parent.ConnectivityState, pickerID(parent.Picker), parentN)
-		det.Views = det.Views[:0]
-		for _, n := range m.prios {
-			c := m.children[n]
-			w := ""
-			if !c.timer.IsZero() {
-				w = fmt.Sprintf(" init-window-left=%v", c.timer.Sub(m.now))
-			}
-			det.Views = append(det.Views, fmt.Sprintf("%s[%s started=%v %v/%s%s]", n, c.pol, c.started, c.state, c.picker, w))
+		det.Active, det.ActiveModel = o.activeNames, activeModel
+		det.Parent = fmt.Sprintf("%v/%s (update #%d)", o.parent.ConnectivityState, pickerID(o.parent.Picker), o.parentN)
+		det.Views = m.views()
+		det.ParentWant = ""
+		if len(m.prios) == 0 {
+			det.ParentWant = "TRANSIENT_FAILURE/" + pickerAllRemoved
+		} else if c := m.children[m.inUse]; c != nil {
+			det.ParentWant = fmt.Sprintf("%v/%s", c.state, c.picker)
 		}
+	}
+
+	// judge compares an observation with a reference state; it has no side effects.
+	judge := func(m *model, o *observation, evKind string) verdict {
 		idxOf := func(name string) int {
 			for i, n := range m.prios {
 				if n == name {
@@ -783,35 +825,33 @@ func runCase(t *testing.T, r *vlib.Run, fam string, idx int, closeTimeout time.D
 			}
 			return -1
 		}
-		r.Count("quiescent_checks", 1)
-		viol := func(key, format string, a ...any) bool {
-			r.Violation(key, fam, idx, det, format, a...)
-			return false
+		v := verdict{}
+		bad := func(key, format string, a ...any) verdict {
+			v.key, v.msg = key, fmt.Sprintf(format, a...)
+			return v
 		}
-
+		parentPicker := pickerID(o.parent.Picker)
 		// I1: what the parent was told
 		if len(m.prios) == 0 {
-			det.ParentWant = "TRANSIENT_FAILURE/" + pickerAllRemoved
-			if configured && (parent.ConnectivityState != connectivity.TransientFailure || pickerID(parent.Picker) != pickerAllRemoved) {
-				return viol("no-priorities-not-transient-failure", "all priorities removed, parent has %s, want %s", det.Parent, det.ParentWant)
+			if configured && (o.parent.ConnectivityState != connectivity.TransientFailure || parentPicker != pickerAllRemoved) {
+				return bad("no-priorities-not-transient-failure", "all priorities removed, parent has %v/%s, want TRANSIENT_FAILURE/%s", o.parent.ConnectivityState, parentPicker, pickerAllRemoved)
 			}
 		} else {
 			c := m.children[m.inUse]
-			det.ParentWant = fmt.Sprintf("%v/%s", c.state, c.picker)
-			if got := pickerID(parent.Picker); got != c.picker {
-				return viol("parent-picker-not-child-in-use", "after %s: parent's picker is %s, the child in use is %q (priority %d of %v) whose picker is %s; model views %v",
-					evKind, got, m.inUse, idxOf(m.inUse), m.prios, c.picker, det.Views)
+			if parentPicker != c.picker {
+				return bad("parent-picker-not-child-in-use", "after %s: parent's picker is %s, the child in use is %q (priority %d of %v) whose picker is %s; model views %v",
+					evKind, parentPicker, m.inUse, idxOf(m.inUse), m.prios, c.picker, m.views())
 			}
-			if parent.ConnectivityState != c.state {
-				return viol("parent-state-not-child-in-use", "after %s: parent's state is %v, the child in use %q is %v", evKind, parent.ConnectivityState, m.inUse, c.state)
+			if o.parent.ConnectivityState != c.state {
+				return bad("parent-state-not-child-in-use", "after %s: parent's state is %v, the child in use %q is %v", evKind, o.parent.ConnectivityState, m.inUse, c.state)
 			}
 			// I1b: the child in use is really running
-			if !contains(activeNames, m.inUse) {
-				return viol("child-in-use-not-active", "after %s: the child in use %q (priority %d of %v) is not among the active children %v", evKind, m.inUse, idxOf(m.inUse), m.prios, activeNames)
+			if !contains(o.activeNames, m.inUse) {
+				return bad("child-in-use-not-active", "after %s: the child in use %q (priority %d of %v) is not among the active children %v", evKind, m.inUse, idxOf(m.inUse), m.prios, o.activeNames)
 			}
 		}
 		// I2: newly activated children
-		for _, in := range newlyActive {
+		for _, in := range o.newlyActive {
 			p := idxOf(in.child)
 			if p < 0 {
 				continue
@@ -819,82 +859,337 @@ func runCase(t *testing.T, r *vlib.Run, fam string, idx int, closeTimeout time.D
 			for q := 0; q < p; q++ {
 				hc := m.children[m.prios[q]]
 				if m.usable(hc) {
-					return viol("lower-started-before-higher-failed", "after %s: child %q (priority %d) was activated although higher priority %q is still usable (%v, started=%v, init window pending=%v); priorities %v",
+					return bad("lower-started-before-higher-failed", "after %s: child %q (priority %d) was activated although higher priority %q is still usable (%v, started=%v, init window pending=%v); priorities %v",
 						evKind, in.child, p, hc.name, hc.state, hc.started, !hc.timer.IsZero(), m.prios)
 				}
 			}
 		}
 		// I3: nothing active below a READY priority
-		for _, name := range activeNames {
+		for _, name := range o.activeNames {
 			p := idxOf(name)
 			for q := 0; q < p; q++ {
 				hc := m.children[m.prios[q]]
 				if hc.started && hc.state == connectivity.Ready {
-					return viol("lower-active-while-higher-ready", "after %s: child %q (priority %d) is still active although priority %d (%q) is READY; priorities %v", evKind, name, p, q, hc.name, m.prios)
+					return bad("lower-active-while-higher-ready", "after %s: child %q (priority %d) is still active although priority %d (%q) is READY; priorities %v", evKind, name, p, q, hc.name, m.prios)
 				}
 				if m.usable(hc) {
-					r.Count("lower_active_while_higher_usable_nonready", 1)
+					v.nonReady++
 				}
 			}
 		}
 		// I3 (closing): a deactivated child is destroyed, at the latest after the cache time
-		for name, os := range alive {
-			for _, o := range os {
-				if o.active {
+		for name, os := range o.alive {
+			for _, x := range os {
+				if x.active {
 					continue
 				}
-				if closeTimeout == 0 || now.Sub(o.in.inactiveSince) > closeTimeout {
-					return viol("stopped-child-not-closed", "after %s: policy object #%d of child %q is not active since %v (now %v) but was never closed (close timeout %v)",
-						evKind, o.in.id, name, o.in.inactiveSince.Sub(startOfBubble), now.Sub(startOfBubble), closeTimeout)
+				if closeTimeout == 0 || o.now.Sub(x.in.inactiveSince) > closeTimeout {
+					return bad("stopped-child-not-closed", "after %s: policy object #%d of child %q is not active since %v (now %v) but was never closed (close timeout %v)",
+						evKind, x.in.id, name, x.in.inactiveSince.Sub(startOfBubble), o.now.Sub(startOfBubble), closeTimeout)
 				}
 			}
 		}
 		// anything else that differs from the reference is recorded, not judged, and ends the case
-		div := ""
-		if strings.Join(activeNames, ",") != strings.Join(activeModel, ",") {
-			div = fmt.Sprintf("active %v, model %v", activeNames, activeModel)
+		var activeModel []string
+		for n, c := range m.children {
+			if c.started {
+				activeModel = append(activeModel, n)
+			}
 		}
-		for name, os := range alive {
+		sort.Strings(activeModel)
+		if strings.Join(o.activeNames, ",") != strings.Join(activeModel, ",") {
+			v.div = fmt.Sprintf("active %v, model %v", o.activeNames, activeModel)
+		}
+		for name, os := range o.alive {
 			mi := m.live[name]
-			if len(os) != 1 || mi == nil || mi.pol != os[0].in.pol {
-				div += fmt.Sprintf(" live objects of %q: %d, model %+v", name, len(os), mi)
+			if len(os) != 1 || mi == nil || mi.pol != os[0].pol {
+				v.div += fmt.Sprintf(" live objects of %q: %d, model %+v", name, len(os), mi)
+			} else if mi.updates != os[0].updates {
+				v.div += fmt.Sprintf(" object of %q received %d configs, model %d", name, os[0].updates, mi.updates)
 			}
 		}
 		for name := range m.live {
-			if len(alive[name]) == 0 {
-				div += fmt.Sprintf(" model has a live object for %q, none observed", name)
+			if len(o.alive[name]) == 0 {
+				v.div += fmt.Sprintf(" model has a live object for %q, none observed", name)
 			}
 		}
-		sort.Strings(inlineFired)
-		sort.Strings(m.inlinePredicted)
-		if strings.Join(inlineFired, ",") != strings.Join(m.inlinePredicted, ",") {
-			div += fmt.Sprintf(" inline reports fired %v, model %v", inlineFired, m.inlinePredicted)
+		if o.built != m.builds {
+			v.div += fmt.Sprintf(" %d policy objects were built, model %d", o.built, m.builds)
 		}
+		pred := append([]string(nil), m.inlinePredicted...)
+		sort.Strings(pred)
+		if strings.Join(o.inlineFired, ",") != strings.Join(pred, ",") {
+			v.div += fmt.Sprintf(" inline reports fired %v, model %v", o.inlineFired, pred)
+		}
+		return v
+	}
+
+	// report turns a verdict into evidence / a violation; false ends the case.
+	report := func(m *model, o *observation, v verdict, evKind string) bool {
+		r.Count("quiescent_checks", 1)
 		m.inlinePredicted = nil
-		if div != "" {
-			r.Count("model_divergence_not_judged", 1)
-			r.Sample(map[string]any{"divergence": div, "case": idx, "family": fam, "after": evKind, "views": det.Views})
-			t.Logf("c39 %s/%d: model divergence (not judged) after %s: %s", fam, idx, evKind, div)
+		fillDetail(m, o)
+		if v.key != "" {
+			r.Violation(v.key, fam, idx, det, "%s", v.msg)
 			return false
 		}
-		// evidence: what situation was checked
+		if v.nonReady > 0 {
+			r.Count("lower_active_while_higher_usable_nonready", int64(v.nonReady))
+		}
+		if v.div != "" {
+			r.Count("model_divergence_not_judged", 1)
+			r.Sample(map[string]any{"divergence": v.div, "case": idx, "family": fam, "after": evKind, "views": det.Views})
+			t.Logf("c39 %s/%d: model divergence (not judged) after %s: %s", fam, idx, evKind, v.div)
+			return false
+		}
 		if len(m.prios) > 0 {
 			c := m.children[m.inUse]
 			win := ""
 			if !c.timer.IsZero() {
 				win = "+window"
 			}
-			r.Nontrivial(fmt.Sprintf("n%d/use%d/%v%s/%s/active%d", len(m.prios), idxOf(m.inUse), c.state, win, evKind, len(activeNames)))
+			p := 0
+			for i, n := range m.prios {
+				if n == m.inUse {
+					p = i
+				}
+			}
+			r.Nontrivial(fmt.Sprintf("n%d/use%d/%v%s/%s/active%d", len(m.prios), p, c.state, win, evKind, len(o.activeNames)))
 		} else {
 			r.Nontrivial("n0/" + evKind)
 		}
 		return true
 	}
 
+	check := func(evKind string) bool {
+		o := observe()
+		return report(m, o, judge(m, o, evKind), evKind)
+	}
+
+	// race: the script wakes at EXACTLY the instant the pending init timer expires
+	// and, without waiting for quiescence, makes the child report / sends a config
+	// update, so the timer's AfterFunc callback genuinely races these events for
+	// the balancer's mutex.  Every position of the callback in the event sequence
+	// is legal; the observation must be explained by one of them (that one becomes
+	// the reference state).  What is never legal: the child's NEW init period
+	// (started by READY/IDLE->CONNECTING or a restart during the race) being ended
+	// by the OLD timer's callback.
+	race := func() (string, bool, bool) {
+		now := time.Now()
+		m.now = now
+		d, dk, who := m.nextDeadline()
+		if d.IsZero() || dk != "init" || !d.After(now) {
+			return "", false, true
+		}
+		for n, c := range m.children {
+			if n != who && c.timer.Equal(d) {
+				return "", false, true
+			}
+		}
+		for _, in := range m.live {
+			if in.cachedUntil.Equal(d) || (!in.cachedUntil.IsZero() && in.reported) {
+				// a tie with a cache timer, or a cached object whose state would be
+				// re-sent concurrently with the racing events: orders multiply, skip
+				return "", false, true
+			}
+		}
+		mi := m.live[who]
+		if mi == nil || !mi.cachedUntil.IsZero() {
+			return "", false, true
+		}
+		var target *inst
+		targetID := -1
+		h.mu.Lock()
+		for _, in := range h.insts {
+			if !in.closed && in.child == who {
+				target, targetID = in, in.id
+			}
+		}
+		for n := range h.armed {
+			delete(h.armed, n)
+		}
+		h.mu.Unlock()
+		for n := range m.armed {
+			delete(m.armed, n)
+		}
+		if target == nil {
+			return "", false, true
+		}
+		type step struct {
+			st  connectivity.State
+			pid string
+		}
+		var steps []step
+		var cfgPrios []string
+		var cfgCh map[string]cfgChild
+		var cfgParsed serviceconfig.LoadBalancingConfig
+		var cfgEps []resolver.Endpoint
+		seqName := ""
+		if rng.Intn(5) == 0 {
+			cfgPrios, cfgCh = genConfig()
+			js := buildJSON(cfgPrios, cfgCh)
+			var err error
+			if cfgParsed, err = parser.ParseConfig(json.RawMessage(js)); err != nil {
+				r.Inconclusive("generated priority config rejected: %v (%s)", err, js)
+				return "", false, false
+			}
+			for _, n := range cfgPrios {
+				ep := resolver.Endpoint{Addresses: []resolver.Address{{Addr: n + "-0:1"}}}
+				cfgEps = append(cfgEps, hierarchy.SetInEndpoint(ep, []string{n}))
+			}
+			seqName = "config"
+			logEv("race-config-at-init-expiry", js)
+		} else {
+			pats := [][]connectivity.State{
+				{connectivity.Ready, connectivity.Connecting},
+				{connectivity.Idle, connectivity.Connecting},
+				{connectivity.Ready, connectivity.Connecting},
+				{connectivity.Ready},
+				{connectivity.TransientFailure},
+				{connectivity.Connecting},
+				{connectivity.TransientFailure, connectivity.Connecting},
+				{connectivity.Ready, connectivity.Connecting, connectivity.Ready},
+				{connectivity.Idle, connectivity.Connecting, connectivity.TransientFailure},
+				{connectivity.Connecting, connectivity.Ready, connectivity.Connecting},
+			}
+			for _, st := range pats[rng.Intn(len(pats))] {
+				steps = append(steps, step{st, newPicker(who)})
+				seqName += st.String()[:2]
+			}
+			logEv("race-reports-at-init-expiry", fmt.Sprintf("object #%d of %s: %s", targetID, who, seqName))
+		}
+		// wake together with the timer
+		time.Sleep(d.Sub(now))
+		if cfgParsed != nil {
+			if err := pb.UpdateClientConnState(balancer.ClientConnState{ResolverState: resolver.State{Endpoints: cfgEps}, BalancerConfig: cfgParsed}); err != nil {
+				r.Violation("config-update-error", fam, idx, det, "UpdateClientConnState = %v", err)
+				return "", false, false
+			}
+		} else {
+			for _, s := range steps {
+				target.bd.cc.UpdateState(balancer.State{ConnectivityState: s.st, Picker: &idPicker{id: s.pid}})
+			}
+		}
+		o := observe()
+
+		expire := func(cm *model) {
+			if c := cm.children[who]; c != nil && c.timer.Equal(d) {
+				c.timer = time.Time{}
+				c.seenReadySinceTF = false
+				cm.initExpiries++
+				if !cm.inhibit {
+					cm.sync("init-timeout")
+					cm.drain()
+				}
+			}
+		}
+		applyStep := func(cm *model, s step) {
+			if in := cm.live[who]; in != nil {
+				in.reported, in.state, in.picker = true, s.st, s.pid
+			}
+			cm.queue = append(cm.queue, qItem{who, s.st, s.pid})
+			cm.drain()
+		}
+		build := func(pos int) *model {
+			cm := cloneModel(m)
+			cm.now = d
+			if cfgParsed != nil {
+				switch pos {
+				case 0:
+					expire(cm)
+					cm.config(cfgPrios, cfgCh, nil)
+				case 1:
+					cm.config(cfgPrios, cfgCh, func() { expire(cm) })
+				default:
+					cm.config(cfgPrios, cfgCh, nil)
+					expire(cm)
+				}
+				return cm
+			}
+			for i, s := range steps {
+				if i == pos {
+					expire(cm)
+				}
+				applyStep(cm, s)
+			}
+			if pos >= len(steps) {
+				expire(cm)
+			}
+			return cm
+		}
+		npos := len(steps) + 1
+		if cfgParsed != nil {
+			npos = 3
+			configured = true
+		}
+		var matched []int
+		var cands []*model
+		var verdicts []verdict
+		for pos := 0; pos < npos; pos++ {
+			cm := build(pos)
+			v := judge(cm, o, "race")
+			cands = append(cands, cm)
+			verdicts = append(verdicts, v)
+			if v.key == "" && v.div == "" {
+				matched = append(matched, pos)
+			}
+		}
+		r.Count("race_events", 1)
+		kind := "race:" + seqName
+		if len(matched) == 0 {
+			// does "the old timer's callback ended the NEW init period" explain it?
+			stale := build(npos - 1)
+			if c := stale.children[who]; c != nil && !c.timer.IsZero() {
+				c.timer = time.Time{}
+				c.seenReadySinceTF = false
+				stale.sync("stale-timer")
+				stale.drain()
+				if sv := judge(stale, o, "race"); sv.key == "" && sv.div == "" {
+					fillDetail(cands[npos-1], o)
+					r.Violation("init-period-cut-short-by-stale-timer", fam, idx, det,
+						"child %q reported %s at the very instant its init timer expired; whatever the order, %q is now inside a NEW init period (until %v) and must stay the child in use, but the balancer behaves as if that period had already timed out: parent has %s, active children %v (reference, callback last: in use %q, views %v)",
+						who, seqName, who, cands[npos-1].children[who].timer.Sub(startOfBubble), det.Parent, o.activeNames, cands[npos-1].inUse, cands[npos-1].views())
+					return kind, true, false
+				}
+			}
+			// report against the order "all events first, stopped timer's callback last"
+			last := npos - 1
+			m = cands[last]
+			v := verdicts[last]
+			if v.key == "" {
+				r.Count("race_unexplained_divergence", 1)
+			}
+			return kind, true, report(m, o, v, kind+"(no order of the timer callback explains the outcome)")
+		}
+		first, lastPos := matched[0], matched[len(matched)-1]
+		order := "between"
+		switch {
+		case len(matched) == npos:
+			order = "indistinguishable"
+		case first == 0 && lastPos != npos-1:
+			order = "timer-first"
+		case lastPos == npos-1 && first != 0:
+			order = "events-first"
+		}
+		r.Count("race_order_"+order, 1)
+		m = cands[lastPos]
+		return kind + "/" + order, true, report(m, o, verdicts[lastPos], kind+"/"+order)
+	}
+
 	nEvents := 25 + rng.Intn(40)
 	for e := 0; e < nEvents; e++ {
 		k := rng.Intn(100)
 		var kind string
+		if configured && rng.Intn(100) < raceBias {
+			rk, done, ok := race()
+			if !ok {
+				break
+			}
+			if done {
+				_ = rk
+				continue
+			}
+		}
 		switch {
 		case !configured || k < 14:
 			prios, ch := genConfig()
@@ -914,7 +1209,7 @@ func runCase(t *testing.T, r *vlib.Run, fam string, idx int, closeTimeout time.D
 			kind = "config"
 			logEv(kind, js)
 			m.now = time.Now()
-			m.config(prios, ch)
+			m.config(prios, ch, nil)
 			if err := pb.UpdateClientConnState(balancer.ClientConnState{ResolverState: resolver.State{Endpoints: eps}, BalancerConfig: cfg}); err != nil {
 				r.Violation("config-update-error", fam, idx, det, "UpdateClientConnState(%s) = %v", js, err)
 				return
@@ -923,11 +1218,16 @@ func runCase(t *testing.T, r *vlib.Run, fam string, idx int, closeTimeout time.D
 			r.Count("events_config", 1)
 		case k < 62:
 			// a child policy object (active or cached) reports a state
+			type cand struct {
+				in    *inst
+				child string
+				id    int
+			}
 			h.mu.Lock()
-			var cands []*inst
+			var cands []cand
 			for _, in := range h.insts {
 				if !in.closed && in.child != "" {
-					cands = append(cands, in)
+					cands = append(cands, cand{in, in.child, in.id})
 				}
 			}
 			h.mu.Unlock()
@@ -960,7 +1260,7 @@ func runCase(t *testing.T, r *vlib.Run, fam string, idx int, closeTimeout time.D
 					r.Count("events_report_while_cached", 1)
 				}
 			}
-			in.bd.cc.UpdateState(balancer.State{ConnectivityState: st, Picker: &idPicker{id: pid}})
+			in.in.bd.cc.UpdateState(balancer.State{ConnectivityState: st, Picker: &idPicker{id: pid}})
 			r.Count("events_child_report", 1)
 		case k < 90:
 			// let virtual time pass
@@ -1097,9 +1397,11 @@ func TestVerifC39(t *testing.T) {
 		fam     string
 		timeout time.Duration
 		n       int
+		race    int // per-event probability (%) of trying an init-timer race
 	}{
-		{"cache", defTimeout, r.N(1400, 30000)},
-		{"nocache", 0, r.N(600, 12000)},
+		{"cache", defTimeout, r.N(1400, 30000), 4},
+		{"nocache", 0, r.N(600, 12000), 4},
+		{"race", 0, r.N(1500, 30000), 45},
 	}
 	const workers = 8
 	for _, ph := range phases {
@@ -1116,7 +1418,7 @@ func TestVerifC39(t *testing.T) {
 							continue
 						}
 						synctest.Test(t, func(t *testing.T) {
-							runCase(t, r, ph.fam, i, ph.timeout)
+							runCase(t, r, ph.fam, i, ph.timeout, ph.race)
 						})
 					}
 				})
@@ -1126,13 +1428,14 @@ func TestVerifC39(t *testing.T) {
 	priority.DefaultSubBalancerCloseTimeout = defTimeout
 	r.Finish(vlib.Spec{
 		Level: "exploration",
-		Rule: "PRNG histories of 25-64 events per case (config updates that add/remove/insert/swap/rotate priorities and change child policy types, child state reports incl. from cached children, inline reports from inside UpdateClientConnState, sleeps to 1ns before/after init-timer and cache deadlines) against the real priority balancer in a synctest bubble; " +
-			"two families: default 15 min sub-balancer cache, and cache disabled; every event is followed by exact quiescence, a ResolverError probe of the active children and the I1-I3 checks; distinct = (number of priorities, index and state of the child in use, init window pending, event kind, number of active children)",
+		Rule: "PRNG histories of 25-64 events per case (config updates that add/remove/insert/swap/rotate priorities and change child policy types, child state reports incl. from cached children, inline reports from inside UpdateClientConnState, sleeps to 1ns before/after init-timer and cache deadlines, and RACES: the script wakes at exactly the instant the init timer expires and lets the child report READY/IDLE/TF/CONNECTING sequences or sends a config update without waiting, so the timer callback races them for the balancer mutex; every position of the callback in the sequence is accepted, the matching one becomes the reference) against the real priority balancer in a synctest bubble; " +
+			"three families: default 15 min sub-balancer cache, cache disabled, and a race-heavy one (cache disabled); every event is followed by exact quiescence, a ResolverError probe of the active children and the I1-I3 checks; distinct = (number of priorities, index and state of the child in use, init window pending, event kind, number of active children)",
 		Assumptions: []string{
 			"child policies are stubs that report exactly what the script says; the set of active children is observed through ResolverError forwarding",
 			"reference model written from the statement and gRFC A56 (failover timer restarted on CONNECTING only if READY/IDLE was seen more recently than TRANSIENT_FAILURE or a timeout)",
 			"closing of a deactivated child is judged with the gRFC A56 cache time (DefaultSubBalancerCloseTimeout) as upper bound; stopping of lower priorities below an IDLE/CONNECTING priority is recorded, not judged",
-			"virtual time (testing/synctest): no verdict depends on wall-clock time; the harness never stops exactly on a timer deadline",
+			"virtual time (testing/synctest): no verdict depends on wall-clock time; outside race events the harness never stops exactly on a timer deadline, and histories in which two balancer timers expire at the same instant are cut, not judged",
+			"race events are only started when no cached child object could re-send a state concurrently (otherwise the set of legal orders is larger than the one enumerated)",
 		},
 		Floor: 150,
 	})
